@@ -48,4 +48,5 @@ revert_invalidator_check_unlocked C16
 revert_plain_expired C03
 revert_expireall_restamp C03 C07 C11
 revert_entry_alignment C07
+revert_restore_usage_counter C12
 LIST
